@@ -39,7 +39,7 @@ func init() {
 		Required:      []string{"overlapping_pairs_same_expr", "op:select", "op:select-abandoned", "op:evaluate", "op:compile", "op:regexp"},
 		Families: []Family{
 			witnessFamily("C05"),
-			{Name: "rounds", N: tierN(4000, 60000), Run: c05Round},
+			{Name: "rounds", N: tierN(4000, 150000), Run: c05Round},
 		},
 	})
 }
